@@ -7,6 +7,7 @@ CONSTANTS
   SegLens = {1, 4, 5}
   MaxTotal = 6
   NoCtx = NoCtx
+  SbThreshold = 1
   TrackStream = TRUE
 CONSTRAINT Bounded
 INVARIANTS InOrder CompleteIsWhole TotalIsSum PartialLenOk LanePartition OwnersAreHeld ReturnedNotProcessing FlushNullLeavesEmpty NeverFull ReturnedState
